@@ -86,6 +86,10 @@ def must_have(name, data, kind):
             b = bytearray(data)
             b[p] = v
             yield ("flip1@%s" % cls(p, n), bytes(b), name)
+    # every length up to 32 bytes (headers and trailers of the containers are 10 to 30 bytes long: a size check that is off
+    # by one shows at exactly one length)
+    for ln in range(0, 33):
+        yield ("truncate@%d" % ln, data[:ln], name)
     # arbitrary bytes, and the well-formed content repeated and cut, of exactly the sizes at which block-zero analysis
     # changes its demands (8096) -- one byte less, one byte more
     import random as _r
